@@ -226,9 +226,13 @@ func Delete(seq Sequence, offset, length int) Sequence {
 	info = tryExpand(info, offset, -length)
 	seq = WithInfo(seq, info)
 
-	ff := seq.Features()
-	for i, f := range ff {
-		ff[i].Loc = f.Loc.Expand(offset, -length)
+	var ff FeatureSlice
+	if gg := seq.Features(); gg != nil {
+		ff = make(FeatureSlice, len(gg))
+		for i, f := range gg {
+			f.Loc = f.Loc.Expand(offset, -length)
+			ff[i] = f
+		}
 	}
 	seq = WithFeatures(seq, ff)
 
